@@ -90,6 +90,29 @@ func C03_TwinCatalog() {
 	vf.Reach("twincat")
 }
 
+// C03_TwinGen: the same over the generated grammar family (gen.go): dead code
+// after break/continue/return in every nesting of loops, conditionals and
+// function literals.
+func C03_TwinGen() {
+	ps := GenPrograms()
+	p := ps[vf.Choice("prog", len(ps))]
+	c03TwinMay(p.Prog)
+	vf.Reach("twingen")
+}
+
+// c03TwinMay: as c03Twin, for programs the compiler may reject: both
+// compilers must then reject, with the same message.
+func c03TwinMay(p Prog) {
+	vf.Assert(!tengo.VerifNoOptBroken, "optimizer switch overlay could be generated (anchor optimizeFunc present)")
+	_, e1 := compileTwin(p.Src, p, false)
+	_, e2 := compileTwin(p.Src, p, true)
+	if e1 != nil || e2 != nil {
+		vf.Assert(errText(e1) == errText(e2), "rejected with and without dead-code elimination alike: "+p.Name)
+		return
+	}
+	c03Twin(p)
+}
+
 // ---- optimizer lemma on arbitrary small instruction streams
 
 var lemmaOps = []byte{parser.OpTrue, parser.OpPop, parser.OpReturn, parser.OpJump, parser.OpJumpFalsy, parser.OpAndJump, parser.OpOrJump, parser.OpGetLocal}
